@@ -442,7 +442,16 @@ class ProfileMachine(Machine):
             raise Violation('reference', 'calc_ee_at_radius',
                             f'{where}: ee({r}) = {ee!r}, profile there is '
                             f'{prof[i]!r}')
-        # strictly increasing prefix of the curve
+        # strictly increasing prefix of the curve - taken from the values the
+        # object itself holds (they are what its interpolators see): the
+        # model's raw/state differs from them by rounding, which decides
+        # whether two nearly equal samples count as increasing
+        pobj0 = call(getattr, o, 'profile')
+        if isinstance(pobj0, Raised):
+            raise Violation('raises', 'profile', repr(pobj0))
+        prof = self._val(pobj0)
+        if prof.shape != radii.shape or not np.all(np.isfinite(prof)):
+            return
         dd = np.diff(prof) <= 0
         last = int(np.argmax(dd)) if np.any(dd) else len(prof) - 1
         # the interpolated value at a knot may differ from the sample by an
